@@ -386,11 +386,11 @@ TEMPLATES = [
 ]
 
 
-def gen_programs(rng, count):
+def gen_programs(rng, count, sizes=(5, 40, 120, 400)):
     out = []
     for k in range(count):
         name, t = TEMPLATES[k % len(TEMPLATES)]
-        n = rng.choice([5, 40, 300, 1200, 2500]) if k >= len(TEMPLATES) else 300
+        n = rng.choice(sizes) if k >= len(TEMPLATES) else 120
         m = rng.randint(0, 50)
         out.append(('gen/%s/%d/%d' % (name, n, m), (t % {'n': n, 'm': m}).encode(), {}))
     return out
@@ -454,7 +454,7 @@ def check_baseline(run, impl_exe, programs, rng, label):
     """long-lived Program: object count after dropping all results and collecting == baseline"""
     cases = []
     meta = {}
-    simple = [(n, s, i) for (n, s, i) in programs if not i]
+    simple = list(programs)
     batch = 6
     k = 0
     for b in range(0, len(simple), batch):
@@ -462,14 +462,19 @@ def check_baseline(run, impl_exe, programs, rng, label):
         for per in (0, rng.choice([3, 5, 17])):
             cid = 'b%d' % k
             k += 1
-            cases.append((cid, 'gcheap', ['prog', 'gc=%x' % per if per else '', '3'] + [hxl(list(s)) for (_, s, _) in grp]))
+            imp = {}
+            for (_, _, i) in grp:
+                imp.update(i)
+            opts = (['gc=%x' % per] if per else []) + (['imp=' + '|'.join('%s:%s' % (dotted(k.encode()), dotted(v)) for k, v in sorted(imp.items()))] if imp else [])
+            cases.append((cid, 'gcheap', ['prog', ';'.join(opts), '3'] + [hxl(list(s)) for (_, s, _) in grp]))
             meta[cid] = (grp, per)
     res = vlib.run_sharded(impl_exe, [vlib.impl_line(c) for c in cases], timeout=900)
     for cid, (grp, per) in meta.items():
         r = res.get(cid, 'NOOUTPUT')
         run.evaluations += 1
         run.count(label)
-        rep = {'kind': 'baseline', 'period': per, 'sources_hex': [hxl(list(s)) for (_, s, _) in grp], 'names': [n for (n, _, _) in grp], 'got': r[:500]}
+        rep = {'kind': 'baseline', 'period': per, 'sources_hex': [hxl(list(s)) for (_, s, _) in grp], 'names': [n for (n, _, _) in grp],
+               'imps': [{k: hxl(list(v)) for k, v in i.items()} for (_, _, i) in grp], 'got': r[:500]}
         f = r.split('\t')
         if f[0] in ('TIMEOUT', 'NOOUTPUT'):
             run.count('baseline_timeout')
@@ -560,7 +565,7 @@ def check(run):
     run_heap_cases(run, cases, impl_exe, model_exe, 'heap_op_sequences')
     # (2) schedule independence, (3) baseline
     ui = ui_programs(vlib.REPO)
-    gen = gen_programs(rng, 400 if thorough else 44)
+    gen = gen_programs(rng, 400 if thorough else 44, (5, 40, 120, 400, 1200) if thorough else (5, 40, 120, 400))
     cp = corpus_programs()
     progs = cp + gen + (ui if thorough else rng.sample(ui, min(len(ui), 150)))
     check_schedules(run, impl_exe, progs, rng, 'sched_programs')
@@ -580,7 +585,8 @@ def replay(run, path):
         check_schedules(run, impl_exe, [(r.get('name', 'replay'), src, imp)], vlib.rng_for(run.seed, ID), 'replay')
     elif isinstance(r, dict) and r.get('kind') == 'baseline':
         srcs = [bytes(int(x, 16) for x in s.split(',')) if s else b'' for s in r['sources_hex']]
-        check_baseline(run, impl_exe, [(n, s, {}) for n, s in zip(r['names'], srcs)], vlib.rng_for(run.seed, ID), 'replay')
+        imps = [{k: bytes(int(x, 16) for x in v.split(',')) if v else b'' for k, v in i.items()} for i in r.get('imps', [{}] * len(srcs))]
+        check_baseline(run, impl_exe, list(zip(r['names'], srcs, imps)), vlib.rng_for(run.seed, ID), 'replay')
     else:
         print('replay file names a broken obligation, not an input:', json.dumps(j.get('no_longer_checks', j), indent=1)[:2000])
         try:
